@@ -13,10 +13,18 @@ use serde_json::{json, Value};
 pub struct UserClass {
     pub map: Vec<(char, Dpv)>,
     pub default: Dpv,
+    /// characters outside the map: 0 = the default value; 1 / 2 = ask IdentifierClass / FreeformClass (a class that refines a standard one:
+    /// the library is re-entered from inside its own call)
+    pub delegate: u8,
 }
 impl StringClass for UserClass {
     fn get_value_from_char(&self, c: char) -> DerivedPropertyValue {
-        self.map.iter().find(|(k, _)| *k == c).map(|(_, v)| *v).unwrap_or(self.default).to_impl()
+        match (self.map.iter().find(|(k, _)| *k == c), self.delegate) {
+            (Some((_, v)), _) => v.to_impl(),
+            (None, 1) => IdentifierClass::default().get_value_from_char(c),
+            (None, 2) => FreeformClass::default().get_value_from_char(c),
+            (None, _) => self.default.to_impl(),
+        }
     }
     fn get_value_from_codepoint(&self, cp: u32) -> DerivedPropertyValue {
         match char::from_u32(cp) {
@@ -37,7 +45,7 @@ impl Class {
         match self {
             Class::Id => json!("IdentifierClass"),
             Class::Ff => json!("FreeformClass"),
-            Class::User(u) => json!({"default": u.default as u8, "map": u.map.iter().map(|(c, v)| json!([*c as u32, *v as u8])).collect::<Vec<_>>(),
+            Class::User(u) => json!({"default": u.default as u8, "delegate": u.delegate, "map": u.map.iter().map(|(c, v)| json!([*c as u32, *v as u8])).collect::<Vec<_>>(),
                 "reading": "values: 0 PValid 1 SpecClassPval 2 SpecClassDis 3 ContextJ 4 ContextO 5 Disallowed 6 Unassigned"}),
         }
     }
@@ -47,6 +55,7 @@ impl Class {
             Some("FreeformClass") => Class::Ff,
             _ => Class::User(UserClass {
                 default: Dpv::from_u8(v["default"].as_u64().unwrap() as u8),
+                delegate: v["delegate"].as_u64().unwrap_or(0) as u8,
                 map: v["map"].as_array().unwrap().iter().map(|e| (char::from_u32(e[0].as_u64().unwrap() as u32).unwrap(), Dpv::from_u8(e[1].as_u64().unwrap() as u8))).collect(),
             }),
         }
@@ -170,6 +179,7 @@ pub fn run(run: &Run) {
         (gens::padded(vec(ch, 0..=10).prop_map(gens::s_of).boxed()), any::<bool>())
     };
     run.prop("random_standard", run.pick(2_000_000, 40_000_000), mk, |(s, ff), l| check(if *ff { &Class::Ff } else { &Class::Id }, s, l));
+    run.prop("clustered_contextual_labels", run.pick(1_000_000, 20_000_000), || (gens::clustered_labels(), any::<bool>()), |(s, ff), l| check(if *ff { &Class::Ff } else { &Class::Id }, s, l));
     super::pipe::stress(run, "alignment_and_runs", &["l\u{b7}l", "l\u{b7}", "\u{94d}\u{200d}", "a\u{200d}", "\u{626}\u{200c}\u{626}", "\u{375}\u{3b1}", "\u{5d0}\u{5f3}", "\u{30fb}\u{3042}", "\u{660}", "\u{660}\u{6f0}", "\u{6f0}\u{660}", "\u{6f0}x\u{660}", "\u{2126}", "\u{378}"], &|s, l| {
         for c in [Class::Id, Class::Ff] {
             if let Err(v) = check(&c, s, l) {
@@ -279,7 +289,7 @@ pub fn run(run: &Run) {
         let alpha2 = alphabet.clone();
         (vec(0u8..7, n), 0u8..7, vec(prop_oneof![9 => (0..n).prop_map(move |i| alpha2[i]), 1 => gens::gchar()], 0..=8)).prop_map(move |(vals, default, label)| {
             let map: Vec<(char, Dpv)> = alphabet.iter().zip(vals.iter()).map(|(c, v)| (*c, Dpv::from_u8(*v))).collect();
-            (Class::User(UserClass { map, default: Dpv::from_u8(default) }), label.into_iter().collect::<String>())
+            (Class::User(UserClass { map, default: Dpv::from_u8(default), delegate: 0 }), label.into_iter().collect::<String>())
         })
     };
     run.prop("random_user_classes", run.pick(500_000, 10_000_000), mk_user, |(c, s), l| check(c, s, l));
@@ -290,10 +300,12 @@ pub fn run(run: &Run) {
             0x669, 0x66a, 0x66e, 0x66f, 0x6ef, 0x6f0, 0x6f3, 0x6f9, 0x6fa, 0x6ff, 0x94d, 0x626, 0x3042].iter().map(|c| char::from_u32(*c).unwrap()).collect();
         let n = alphabet.len();
         let val = prop_oneof![4 => Just(0u8), 2 => Just(3u8), 3 => Just(4u8), 1 => 0u8..7];
-        (vec(val, n), vec(0..n, 2..=5), vec(0usize..64, 0..=7)).prop_map(move |(vals, focus, picks)| {
+        (vec(val, n), vec(0..n, 2..=5), vec(0usize..64, 0..=7), 0u8..3).prop_map(move |(vals, focus, picks, delegate)| {
             let map: Vec<(char, Dpv)> = alphabet.iter().zip(vals.iter()).map(|(c, v)| (*c, Dpv::from_u8(*v))).collect();
             let label: String = picks.iter().map(|p| if *p < 56 { alphabet[focus[*p * focus.len() / 56]] } else { alphabet[(*p - 56) * n / 8] }).collect();
-            (Class::User(UserClass { map, default: Dpv::PValid }), label)
+            // one class in three keeps only the assignments of its focus characters and refines IdentifierClass / FreeformClass for the rest
+            let map: Vec<(char, Dpv)> = if delegate > 0 { focus.iter().map(|i| map[*i]).collect() } else { map };
+            (Class::User(UserClass { map, default: Dpv::PValid, delegate }), label)
         })
     };
     run.prop("random_user_classes_row_neighbours", run.pick(1_000_000, 20_000_000), mk_rows, |(c, s), l| check(c, s, l));
